@@ -169,6 +169,16 @@ func (h *srvHandler) Handle(ctx context.Context, req packet.Request) (packet.Res
 	case HPlainErr:
 		return nil, errors.New("handler failed: database is down")
 	case HPanic:
+		// what handlers panic with in practice: a string, an error, a runtime error, a value of a type that cannot be compared
+		switch seq % 4 {
+		case 1:
+			panic(errors.New("handler panics on purpose (error value)"))
+		case 2:
+			panic(uncomparablePanic{"handler", "panics", "on purpose"})
+		case 3:
+			var m map[string]int
+			m["x"] = 1 // runtime error
+		}
 		panic("handler panics on purpose")
 	case HSlow:
 		at := time.Now().Add(work)
@@ -395,3 +405,8 @@ func safeBytes(r packet.Request) (b []byte) {
 	defer func() { recover() }()
 	return r.Bytes()
 }
+
+// uncomparablePanic is an error whose dynamic type cannot be compared with ==.
+type uncomparablePanic []string
+
+func (u uncomparablePanic) Error() string { return "handler panics on purpose (uncomparable value)" }
